@@ -4,8 +4,8 @@ import Helm.Props.C20
 #print axioms Helm.Props.C20.strvals_nesting_limit
 #print axioms Helm.Props.C20.storage_list_never_panics
 #print axioms Helm.Props.C20.storage_query_never_panics
-#print axioms Helm.Props.C20.configmaps_get_never_panics
-#print axioms Helm.Props.C20.counterexample_secrets_get
+#print axioms Helm.Props.C20.get_never_panics
+#print axioms Helm.Props.C20.delete_never_panics
 #print axioms Helm.Props.C20.index_load_never_panics
 #print axioms Helm.Props.C20.index_get_never_panics
 #print axioms Helm.Props.C20.counterexample_index_null
